@@ -55,10 +55,12 @@ def gen_cases(tier, seed):
     for w in range(0, 33):
         for ver in (1, 2):
             for plan in (["bp", "rle", "mixed"] if not quick else [["bp", "rle", "mixed"][w % 3]]):
-                distinct = 1 if w == 0 else min(1 << w, 600)
-                add("W/%d/v%d/%s" % (w, ver, plan),
-                    [_col("i64", use_dict=True, distinct=distinct, idx_plan=plan, page_version=ver, page_rows=[33, 64], min_index_width=w,
-                          optional=bool(w % 2), nulls="p20" if w % 2 else "none")], rgs=(130,), width=w)
+                # dictionary sizes at both ends of what needs w bits (2^(w-1)+1 .. 2^w - 1), capped; rows >> dictionary so high codes occur
+                sizes = [1] if w == 0 else sorted({min((1 << (w - 1)) + 1, 700), min((1 << w) - 1, 700), min(1 << w, 700)})
+                for distinct in sizes:
+                    add("W/%d/v%d/%s/d%d" % (w, ver, plan, distinct),
+                        [_col(["i64", "utf8", "f64"][distinct % 3], use_dict=True, distinct=distinct, idx_plan=plan, page_version=ver, page_rows=[333, 640], min_index_width=w,
+                              optional=bool(w % 2), nulls="p20" if w % 2 else "none")], rgs=(1500,), width=w)
     # --- delta widths 0..64
     for bits in range(0, 65):
         for ptype in ("i32", "i64"):
